@@ -26,6 +26,8 @@ pub struct SendReport {
     pub results: Vec<SendRes>,
     /// bytes in the sink after each attempt
     pub lens: Vec<usize>,
+    /// length of the sink's event log after each attempt
+    pub log_lens: Vec<usize>,
     /// polls per completed send (async)
     pub polls: Vec<usize>,
     /// a send future returned Pending without a wake-up / exceeded the poll budget
@@ -144,6 +146,7 @@ fn shallow_read<T: Shape + ?Sized>(x: &T, base: usize) -> ReadOut {
 pub fn send_blocking<T: Shape + ?Sized>(msgs: &[Value], routes: &[u8], max_msg_len: usize, sink: &mut ScriptSink, keep_going: bool) -> SendReport {
     let mut out = Vec::new();
     let mut lens = Vec::new();
+    let mut log_lens = Vec::new();
     let sink_ptr: *const ScriptSink = sink;
     let mut sender = match capacity_override() {
         Some(cap) => Sender::<T, _>::new(IoBuffer::new(&mut *sink, cap, T::ALIGN)),
@@ -173,6 +176,7 @@ pub fn send_blocking<T: Shape + ?Sized>(msgs: &[Value], routes: &[u8], max_msg_l
         let failed = r != SendRes::Sent;
         out.push(r);
         lens.push(unsafe { (*sink_ptr).data.len() });
+        log_lens.push(unsafe { (*sink_ptr).log.len() });
         if failed && !keep_going {
             break;
         }
@@ -180,6 +184,7 @@ pub fn send_blocking<T: Shape + ?Sized>(msgs: &[Value], routes: &[u8], max_msg_l
     SendReport {
         results: out,
         lens,
+        log_lens,
         polls: vec![],
         stalled: false,
     }
@@ -259,6 +264,7 @@ pub fn async_send<T: Shape + ?Sized>(msgs: &[Value], routes: &[u8], max_msg_len:
     let mut out = Vec::new();
     let mut polls = Vec::new();
     let mut lens = Vec::new();
+    let mut log_lens = Vec::new();
     let mut stalled = false;
     let sink_ptr: *const ScriptSink = sink;
     let mut sender = match capacity_override() {
@@ -293,6 +299,7 @@ pub fn async_send<T: Shape + ?Sized>(msgs: &[Value], routes: &[u8], max_msg_len:
                 out.push(res);
                 polls.push(p);
                 lens.push(unsafe { (*sink_ptr).data.len() });
+        log_lens.push(unsafe { (*sink_ptr).log.len() });
                 if failed && !keep_going {
                     break;
                 }
@@ -304,6 +311,7 @@ pub fn async_send<T: Shape + ?Sized>(msgs: &[Value], routes: &[u8], max_msg_len:
             Err(e) => {
                 out.push(SendRes::Panic(panic_msg(e)));
                 lens.push(unsafe { (*sink_ptr).data.len() });
+        log_lens.push(unsafe { (*sink_ptr).log.len() });
                 if !keep_going {
                     break;
                 }
@@ -313,6 +321,7 @@ pub fn async_send<T: Shape + ?Sized>(msgs: &[Value], routes: &[u8], max_msg_len:
     SendReport {
         results: out,
         lens,
+        log_lens,
         polls,
         stalled,
     }
